@@ -27,6 +27,9 @@ type Answer struct {
 	TransportErr error  // fail the round trip
 	// ContentEncoding, if set, is sent as the Content-Encoding header of a Raw body (the body bytes are sent as given)
 	ContentEncoding string
+	// EchoQuestion, if set, replaces the question section of the response (a server that answers ANOTHER question than the one
+	// it was asked: a mix-up in a forwarder, an attacker on the path of a plain-HTTP hop)
+	EchoQuestion *dnsref.Question
 }
 
 // Unparseable is the logged name of a query the independent codec could not parse.
@@ -104,6 +107,9 @@ func (s *Server) RoundTrip(req *http.Request) (*http.Response, error) {
 		return rp, nil
 	}
 	m := &dnsref.Msg{ID: q.ID, Flags: 0x8180 | uint16(a.RCode&0xf), Q: q.Q}
+	if a.EchoQuestion != nil {
+		m.Q = []dnsref.Question{*a.EchoQuestion}
+	}
 	m.Sec[0] = a.Records
 	m.Sec[2] = a.Additional
 	if a.RCode > 15 {
